@@ -76,7 +76,9 @@ ASSUMPTIONS = ['frequencies and targets are finite, positive real ndarrays (a si
                'rejected by the library (TypeError/IndexError) and are counted, not judged',
                'bandwidth b in [5, 100] (calls outside are counted, not judged)',
                'when frequencies AND targets are float32 numpy evaluates the window in single precision: those calls are '
-               'judged by separate clauses "(f32 grid)" with rtol 2e-4 (observed 8e-6) instead of 1e-9',
+               'judged by separate clauses "(f32 grid)" with rtol 2e-4 (observed 8e-6) instead of 1e-9, plus 16 x the oracle\'s first-order '
+               'bound of the window\'s own rounding at single precision (matters for b > ~80 with targets far from every Fourier frequency, '
+               'where every weight of a column sits on a steep flank of sin(z)/z)',
                'integer amplitude vectors of any width are in domain, including the most negative value of a signed dtype '
                '(|A| = 2**(bits-1) must not wrap)',
                'bandwidth limits are judged for ascending smoothing frequencies, ratio in [0,1) (calc_bandwidth_*) / '
@@ -299,13 +301,24 @@ def _subset(fnz, tg):
     return np.unique(np.concatenate([[0, n - 1], r.integers(0, n, size=m - 2)]))
 
 
-def _compare(fnz, anz, tg, band, got, scale, rtol):
-    """(ok, description, reference, the compared part of got, large?) of a smoothed spectrum against the oracle."""
+F32_GAIN = 16 * 2.0 ** 29          # float32 / float64 unit roundoff x the factor 16 of the local-scale clause
+
+
+def _compare(fnz, anz, tg, band, got, scale, rtol, f32=False):
+    """(ok, description, reference, the compared part of got, large?) of a smoothed spectrum against the oracle.
+    f32: the window was evaluated in single precision; rtol 2e-4 of the scale covers it where the window is well conditioned
+    (b*|log10(f/fc)| of a few tens); for large bandwidths and targets far from every Fourier frequency all weights of a column sit
+    on the steep flanks of sin(z)/z and the oracle's first-order bound of the window's own rounding, taken at single precision, is
+    added (a quantity the oracle computes; nothing is added in double precision)."""
     got = np.asarray(got)
     idx = _subset(fnz, tg)
     if idx is None:
         ref = _reference(fnz, anz, tg, band)
-        return tol.close(got, ref, scale=scale, rtol=rtol), tol.describe(got, ref, scale=scale, rtol=rtol), ref, got, False
+        atol = 0.0
+        if f32:
+            atol = F32_GAIN * np.array(O.smooth_error_bound(_columns(fnz, tg, band), _sens_columns(fnz, tg, band), anz.tolist()), dtype=float)
+        return (tol.close(got, ref, scale=scale, rtol=rtol, atol=atol), tol.describe(got, ref, scale=scale, rtol=rtol, atol=atol),
+                ref, got, False)
     if got.shape != (len(tg),):
         return False, 'shape %s, expected (%d,)' % (got.shape, len(tg)), None, got[:64], True
     if len(fnz) * len(idx) > 2 ** 18:
@@ -375,7 +388,7 @@ def check_smooth(ctx, at, freqs, spec, targets, band, result, clause='smooth==we
     scale = _scale(anz)
     if raw is None:
         raw = _raw_func(freqs, spec, targets, band)
-    ok_eq, desc, ref, gsub, large = _compare(fnz, anz, tg, band, got, scale, rtol)
+    ok_eq, desc, ref, gsub, large = _compare(fnz, anz, tg, band, got, scale, rtol, f32=(sfx == '(f32 grid)'))
     if large:
         ctx.observe('large-calls(n_fa*n_targets > 2**19)')
         if len(fnz) * len(tg) > 2 ** 22:
@@ -486,9 +499,13 @@ def _post_matrix(args, kwargs, result, pre):
     gsub = got if (idx is None or not shape_ok) else got[:, idx]
     wit = lambda: _wit(at, raw, got=gsub if gsub.size <= 2 ** 16 else gsub[:64], band=band, judged_columns=idx)
     cscale = np.max(ref, axis=0)[np.newaxis, :]
-    ctx.check(shape_ok and tol.close(gsub, ref, scale=cscale, rtol=rtol), 'matrix==window/sum' + sfx + (LARGE_SFX if large else ''), wit,
+    matol = 0.0
+    if sfx == '(f32 grid)' and not large:
+        # single precision, see _compare: the oracle's first-order bound of the window's own rounding per entry
+        matol = F32_GAIN * np.array(O.matrix_error_bound(cols, _sens_columns(fnz, tsub, band)), dtype=float).reshape(len(fnz), len(tsub))
+    ctx.check(shape_ok and tol.close(gsub, ref, scale=cscale, rtol=rtol, atol=matol), 'matrix==window/sum' + sfx + (LARGE_SFX if large else ''), wit,
               'smoothing matrix (n_f=%d, n_targets=%d, band=%r): %s'
-              % (len(fnz), len(tg), band, tol.describe(gsub, ref, scale=cscale, rtol=rtol)
+              % (len(fnz), len(tg), band, tol.describe(gsub, ref, scale=cscale, rtol=rtol, atol=matol)
                  if shape_ok else 'shape %s expected %s' % (got.shape, (len(fnz), len(tg)))))
     if not shape_ok:
         return
